@@ -438,6 +438,9 @@ func NextBuiltin(vm *Thread, val value.Value) (result, err value.Value) {
 		return LeftOpenRangeIteratorNext(vm, v)
 	case *value.RightOpenRangeIterator:
 		return RightOpenRangeIteratorNext(vm, v)
+	case value.ReadChannel:
+		// waiting for the next value of a channel ends when the thread gets aborted
+		return v.NextValueCtx(vm.Aborter.Context())
 	case value.NativeIterator:
 		return v.NextValue()
 	default:
